@@ -187,6 +187,16 @@ class SDFS(SubFS):
         # noinspection PyTypeChecker
         return self.openbin(path, mode, buffering, **options)
 
+    # SubFS passes these straight to the parent filesystem, which would read and store the raw (encrypted) bytes.
+    # The generic implementations go through open() and openbin() of this class.
+    readbytes = FS.readbytes
+    writebytes = FS.writebytes
+    appendbytes = FS.appendbytes
+    upload = FS.upload
+    download = FS.download
+    copy = FS.copy
+    move = FS.move
+
     def getmeta(self, namespace: str = 'standard') -> 'Mapping[str, object]':
         meta = dict(super().getmeta(namespace))
         meta['supports_rename'] = False
